@@ -14,6 +14,13 @@ From Coq Require Import ZArith NArith List Bool.
 Import ListNotations.
 From Verif Require Import Lib.Corr Lib.Crash_Store.
 
+Fixpoint all_some {A} (l : list (option A)) : option (list A) :=
+  match l with
+  | [] => Some []
+  | None :: _ => None
+  | Some x :: r => match all_some r with Some y => Some (x :: y) | None => None end
+  end.
+
 (* ---- keys: <block>/<file>; blocks are numbered by the harness (ULID order) ---- *)
 Inductive file :=
 | FMeta                (* meta.json *)
